@@ -169,6 +169,11 @@ def data_fine_stream(props, name="data-fine-grained-exploration"):
         n = {"quick": 500, "search": 4000, "thorough": 8000}[tier]
         import extract
         focus = sorted(extract.changed_functions())      # functions whose structure differs from the recorded skeleton
+        # functions that now write state outside their instance (Gen.sharedState vs the record): preempt inside them too, in
+        # whatever module they live (the codec modules are otherwise taken as pure and never preempted)
+        state_fns = extract.state_functions()
+        state_files = sorted(state_fns)
+        focus = sorted(set(focus) | {f for fs in state_fns.values() for f in fs})
         res.distribution["focus_functions"] = len(focus)
         for i in range(n):
             seed = R0.getrandbits(48)
@@ -195,6 +200,8 @@ def data_fine_stream(props, name="data-fine-grained-exploration"):
                 scn["fine_focus"] = focus
                 scn["fine_p"] = R.choice([0.01, 0.03])
                 res.distribution["focused_runs"] += 1
+            if state_files:
+                scn["fine_files"] = state_files
             run = CD.run_real(scn, choose)
             A = CD.analyse(run)
             res.evaluations += 1
@@ -228,6 +235,9 @@ def meta_fine_stream(props, name="meta-fine-grained-exploration"):
         n = {"quick": 100, "search": 600, "thorough": 4000}[tier]
         import extract
         focus = sorted(extract.changed_functions())
+        state_fns = extract.state_functions()          # see data_fine_stream
+        state_files = sorted(state_fns)
+        focus = sorted(set(focus) | {f for fs in state_fns.values() for f in fs})
         for i in range(n):
             seed = R0.getrandbits(48)
             R = random.Random(seed)
@@ -237,6 +247,8 @@ def meta_fine_stream(props, name="meta-fine-grained-exploration"):
             if focus and i % 3:
                 scn["fine_focus"] = focus
                 scn["fine_p"] = R.choice([0.02, 0.1])
+            if state_files:
+                scn["fine_files"] = state_files
             SR = random.Random(seed ^ 0x9E3779B97F4A)
             choices = []
 
